@@ -389,4 +389,40 @@ instance : AddCommMonoid GInt where
 
 end gint
 
+section forest
+variable {α : Type} [Add α]
+
+/-- entry-wise sum of the flat arrays of a forest -/
+def sumFlats : List α → List (List α) → List α
+  | acc, [] => acc
+  | acc, l :: ls => sumFlats (List.zipWith (· + ·) acc l) ls
+
+theorem sumTrees_flat (acc : PTree α) (ts : List (PTree α)) (r : PTree α) (h : sumTrees acc ts = some r) :
+    r.flatten = sumFlats acc.flatten (ts.map PTree.flatten) := by
+  induction ts generalizing acc with
+  | nil => simp [sumTrees] at h; subst h; rfl
+  | cons t ts ih =>
+    simp only [sumTrees] at h
+    cases hm : map₂ (· + ·) acc t with
+    | none => simp [hm] at h
+    | some q =>
+      simp only [hm] at h
+      rw [ih q h, (flatten_map₂ _ acc t q hm).2]
+      rfl
+
+/-- **mean_flat**: `mean(forest)` is `1/n` times the entry-wise sum of the concatenated flat arrays of its members -/
+theorem mean_flat [Mul α] (inv : α) (t : PTree α) (ts : List (PTree α)) (r : PTree α)
+    (h : meanTrees inv (t :: ts) = some r) :
+    r.flatten = (sumFlats t.flatten (ts.map PTree.flatten)).map fun x => inv * x := by
+  simp only [meanTrees] at h
+  cases hs : sumTrees t ts with
+  | none => simp [hs] at h
+  | some q =>
+    simp [hs] at h
+    subst h
+    rw [flatten_map, sumTrees_flat t ts q hs]
+
+
+end forest
+
 end NiftyVerif.Pytree
